@@ -561,9 +561,6 @@ impl Inst for IPomh2 {
             Op::Item(x) => vec![*x; self.l],
             _ => return Applied::Unsupported,
         };
-        if items.len() < self.l {
-            return Applied::Unsupported;
-        }
         match g(|| s.hash_set(&items)) {
             Ok(sig) => {
                 self.last = sig;
